@@ -160,6 +160,12 @@ func (fi *fileDescriptor) Flush() error {
 // If `fullSync` is set the changes are propagated upwards
 // (the `Up` part of `flushUp`).
 func (fi *fileDescriptor) flushUp(fullSync bool) error {
+	if !fi.flags.Write {
+		// A read-only descriptor has nothing to flush. Re-installing its
+		// snapshot of the node would overwrite metadata (mode, mtime) set
+		// on the file since the descriptor was opened.
+		return nil
+	}
 	var nd ipld.Node
 	switch fi.state {
 	case stateCreated, stateDirty:
